@@ -16,13 +16,14 @@ use vcheck::{json, quiet_catch, run_property, Ctx, Property, Tier, Value};
 
 struct C20;
 
-static LIVE: [AtomicIsize; 4] = [AtomicIsize::new(0), AtomicIsize::new(0), AtomicIsize::new(0), AtomicIsize::new(0)];
+static LIVE: [AtomicIsize; 5] = [AtomicIsize::new(0), AtomicIsize::new(0), AtomicIsize::new(0), AtomicIsize::new(0), AtomicIsize::new(0)];
 static DOUBLE: AtomicIsize = AtomicIsize::new(0);
-const KINDS: [&str; 4] = ["module states", "task captures", "message bodies", "processing elements"];
+const KINDS: [&str; 5] = ["module states", "task captures", "message bodies", "processing elements", "channel probes"];
 const MODS: usize = 0;
 const TASK: usize = 1;
 const BODY: usize = 2;
 const PE: usize = 3;
+const PROBE: usize = 4;
 
 #[derive(Debug)]
 struct Tok(usize, bool);
@@ -57,6 +58,12 @@ impl MessageBody for Tok {
 struct Pel(#[allow(dead_code)] Tok);
 impl ProcessingElement for Pel {}
 
+/// user object attached to a channel
+struct Probe(#[allow(dead_code)] Tok);
+impl des::net::channel::ChannelProbe for Probe {
+    fn on_message_transmit(&mut self, _: &ChannelMetrics, _: &Message) {}
+}
+
 #[derive(Clone, Copy, Debug, PartialEq)]
 struct Cfg {
     policy: u8, // 0 drop, 1 queue unbounded, 2 queue 200 bytes
@@ -67,6 +74,8 @@ struct Cfg {
     pes: bool,
     /// the sender emits a message and a self message from at_sim_end (allowed, never processed)
     send_at_end: bool,
+    /// a closed gate ring with probed channels
+    ring: bool,
 }
 
 struct Tx {
@@ -190,6 +199,19 @@ fn build(c: &Cfg) -> des::net::SimBuilder<()> {
     let back = s.gate("rx", "back");
     let txin = s.gate("tx", "in");
     back.connect(txin, ch());
+    if c.ring {
+        // a closed ring of gates (every gate has two peers, none is an endpoint), with probed channels
+        let ring = [s.gate("tx", "ring"), s.gate("mid", "ring"), s.gate("rx", "ring"), s.gate("rx.child", "ring")];
+        for i in 0..ring.len() {
+            let chan = Channel::new(ChannelMetrics::new(8000, Duration::from_millis(100), Duration::ZERO, policy));
+            chan.attach_probe(Probe(Tok::new(PROBE)));
+            ring[i].clone().connect(ring[(i + 1) % ring.len()].clone(), Some(chan));
+        }
+        // probes on an open chain too
+        let c2 = Channel::new(ChannelMetrics::new(0, Duration::from_millis(1), Duration::ZERO, policy));
+        c2.attach_probe(Probe(Tok::new(PROBE)));
+        s.gate("tx", "side").connect(s.gate("rx.child", "side"), Some(c2));
+    }
     s
 }
 
@@ -205,8 +227,8 @@ enum Stop {
     MaxTime(u64),
 }
 
-fn live() -> [isize; 4] {
-    [LIVE[0].load(SeqCst), LIVE[1].load(SeqCst), LIVE[2].load(SeqCst), LIVE[3].load(SeqCst)]
+fn live() -> [isize; 5] {
+    [LIVE[0].load(SeqCst), LIVE[1].load(SeqCst), LIVE[2].load(SeqCst), LIVE[3].load(SeqCst), LIVE[4].load(SeqCst)]
 }
 fn reset_counters() {
     for a in &LIVE {
@@ -332,7 +354,7 @@ fn reference_trace() -> Result<u64, String> {
 }
 
 fn case_json(c: &Cfg, stop: Stop) -> Value {
-    json!({"policy": c.policy, "tasks": c.tasks, "shutdown": c.shutdown, "panic": c.panic, "burst": c.burst, "pes": c.pes, "send_at_end": c.send_at_end,
+    json!({"policy": c.policy, "tasks": c.tasks, "shutdown": c.shutdown, "panic": c.panic, "burst": c.burst, "pes": c.pes, "send_at_end": c.send_at_end, "ring": c.ring,
            "stop": match stop { Stop::NeverBuilt => json!("never_built"), Stop::Built => json!("built_not_started"), Stop::Stepped(k) => json!({"stepped": k}),
                                 Stop::MaxItr(k, o) => json!({"max_itr": k, "drop_app_first": o}), Stop::MaxTime(t) => json!({"max_time_tenths": t}) }})
 }
@@ -345,6 +367,7 @@ fn case_from(v: &Value) -> (Cfg, Stop) {
         burst: v["burst"].as_u64().unwrap() as u32,
         pes: v["pes"].as_bool().unwrap(),
         send_at_end: v["send_at_end"].as_bool().unwrap_or(false),
+        ring: v["ring"].as_bool().unwrap_or(false),
     };
     let s = &v["stop"];
     let stop = if s == "never_built" {
@@ -367,8 +390,8 @@ fn check(c: &Cfg, stop: Stop, baseline: u64) -> Result<(u64, usize), String> {
     let l = live();
     let d = DOUBLE.load(SeqCst);
     reset_counters();
-    if l != [0, 0, 0, 0] {
-        let parts: Vec<String> = (0..4).filter(|&k| l[k] != 0).map(|k| format!("{} {}", l[k], KINDS[k])).collect();
+    if l != [0, 0, 0, 0, 0] {
+        let parts: Vec<String> = (0..5).filter(|&k| l[k] != 0).map(|k| format!("{} {}", l[k], KINDS[k])).collect();
         return Err(format!("after the simulation was dropped these objects are still alive: {}", parts.join(", ")));
     }
     if d != 0 {
@@ -387,9 +410,9 @@ impl Property for C20 {
     }
     fn rule(&self, tier: Tier) -> String {
         format!(
-            "generated simulations: queue policy {{Drop, Queue(None), Queue(200 B)}} x tasks (timer-blocked, far-future, receive loop holding messages) on/off x shut-down-and-restarted transit module on/off x panicking receiver on/off x burst {:?} x processing elements on/off x messages emitted from at_sim_end on/off, \
+            "generated simulations: queue policy {{Drop, Queue(None), Queue(200 B)}} x tasks (timer-blocked, far-future, receive loop holding messages) on/off x shut-down-and-restarted transit module on/off x panicking receiver on/off x burst {:?} x processing elements on/off x messages emitted from at_sim_end on/off x a closed gate ring with probed channels on/off, \
              on a fixed topology with a parent/child pair and a ring of three busy channels through a transit gate; stopping points: builder dropped, built not started, started and stepped k events for k in 0..={}, max_itr(k) for every k up to the total + 1 in both drop orders (app first / profiler with remaining events first), max_time in {{0, 0.5, .., 4, 10, 60}} s (thorough: every 0.1 s up to 6 s); \
-             oracle: per-kind live-object counters all zero and no double drop after the last handle is gone; then a reference simulation must reproduce the trace it gave before anything else ran in the process (and the same in every worker process); \
+             oracle: per-kind live-object counters (module states, task captures, message bodies, processing elements, channel probes) all zero and no double drop after the last handle is gone; then a reference simulation must reproduce the trace it gave before anything else ran in the process (and the same in every worker process); \
              non-trivial = stopping point that leaves events, queued messages or blocked tasks behind",
             tier.pick(vec![3u32, 5], vec![1u32, 3, 5, 8]),
             tier.pick(6, 12)
@@ -399,7 +422,7 @@ impl Property for C20 {
         vec!["user-level reference cycles (a task capturing its own module handle) are outside the alphabet".into()]
     }
     fn required_features(&self, _tier: Tier) -> Vec<&'static str> {
-        vec!["stopped_with_remaining_events", "queue_policy_with_backlog", "ended_with_errors", "never_started", "stepped_without_finish", "restarted_module", "message_emitted_during_teardown"]
+        vec!["stopped_with_remaining_events", "queue_policy_with_backlog", "ended_with_errors", "never_started", "stepped_without_finish", "restarted_module", "message_emitted_during_teardown", "closed_gate_ring_with_probes"]
     }
     fn explore(&self, ctx: &mut Ctx) {
         let baseline = match reference_trace() {
@@ -417,8 +440,8 @@ impl Property for C20 {
                 for shutdown in [false, true] {
                     for panic in [false, true] {
                         for &burst in &bursts {
-                            for (pes, send_at_end) in [(false, false), (true, false), (false, true), (true, true)] {
-                                let c = Cfg { policy, tasks, shutdown, panic, burst, pes, send_at_end };
+                            for (pes, send_at_end, ring) in [(false, false, false), (true, false, true), (false, true, false), (true, true, true)] {
+                                let c = Cfg { policy, tasks, shutdown, panic, burst, pes, send_at_end, ring };
                                 if !ctx.mine() {
                                     continue;
                                 }
@@ -454,6 +477,9 @@ impl Property for C20 {
                                     }
                                     if send_at_end {
                                         ctx.hit("message_emitted_during_teardown");
+                                    }
+                                    if ring {
+                                        ctx.hit("closed_gate_ring_with_probes");
                                     }
                                     match check(&c, stop, baseline) {
                                         Ok((o, remaining)) => {
